@@ -24,6 +24,14 @@ Lemma K_nsf_pick_idx0 j : k_nsf_pick_idx0 j = j.
 Proof. reflexivity. Qed.
 Lemma K_nsf_pick j x : k_nsf_pick j x = x.
 Proof. reflexivity. Qed.
+Lemma K_chg_recarrays x : k_chg_recarrays x = x.
+Proof. reflexivity. Qed.
+Lemma K_chg_weights x : k_chg_weights x = x.
+Proof. reflexivity. Qed.
+Lemma K_init_weights x : k_init_weights x = x.
+Proof. reflexivity. Qed.
+Lemma K_multi_chg x : k_multi_chg x = x.
+Proof. reflexivity. Qed.
 Lemma K_src_mask s k : k_src_mask (Z.of_nat s) (Z.of_nat k) = Nat.eqb s k.
 Proof.
   unfold k_src_mask. destruct (Nat.eqb_spec s k) as [E|E].
@@ -104,6 +112,16 @@ Qed.
    (any number system)                                                  *)
 Section Generic.
   Context {T : Type} (N : Num T).
+
+  (* after change_shg_mgr a long-lived service behaves like a freshly built one,
+     whatever it was built for and whatever it was changed to before *)
+  Lemma svc_weights_last (W0 : list (list T)) changes W :
+    svc_weights W0 (changes ++ [W]) = W.
+  Proof. unfold svc_weights. rewrite fold_left_app. reflexivity. Qed.
+
+  Theorem a_jk_after_fresh J (W0 : list (list T)) changes W Ycols :
+    a_jk_after N J W0 (changes ++ [W]) Ycols = a_jk_calc N J (combine W Ycols).
+  Proof. unfold a_jk_after. rewrite svc_weights_last. reflexivity. Qed.
 
   Lemma mine_eq k (vals : list (nat * nat * T)) :
     mine k vals = filter (fun v => Nat.eqb (fst (fst v)) k) vals.
